@@ -111,6 +111,7 @@ pub fn rank_table() -> Value {
         "edges": ranks(EDGES, |m| edge(m).0),
         "types": ranks(TYPES, |m| ty(m).0),
         "scope": scope_ranks(),
+        "shard": NODES.iter().map(|m| ((*m).to_string(), json!(warp_core::shard_of(&node(m))))).collect::<serde_json::Map<String, Value>>(),
     })
 }
 
